@@ -96,7 +96,7 @@ func (o *Op) String() string {
 		return fmt.Sprintf("sleep %dms", o.Ms)
 	case "create":
 		if o.NCfg != nil {
-			return fmt.Sprintf("create cache=%v async=%v(%d,%dms)", o.NCfg.Cache, o.NCfg.Async, o.NCfg.Threshold, o.NCfg.TimeoutMs)
+			return fmt.Sprintf("create cache=%v async=%v(%d,%dms) off-struct=%v %s", o.NCfg.Cache, o.NCfg.Async, o.NCfg.Threshold, o.NCfg.TimeoutMs, o.NCfg.OffStruct, o.Mode)
 		}
 		return "create same"
 	}
@@ -126,6 +126,8 @@ type gen struct {
 	live  []int // lids probably live
 	dead  []int
 	slots int
+	// async setting after the last create switch drawn so far
+	switched, asyncNow bool
 }
 
 // GenOps draws a history.
@@ -314,6 +316,14 @@ func (g *gen) genOp(k string) Op {
 			nc.Cache = r.Bool()
 			if !g.prof.NoAsync {
 				nc.Async = r.Bool()
+				if g.switched && !g.asyncNow {
+					nc.Async = r.Chance(3, 4) // histories that switched async off mostly come back
+				}
+				g.switched, g.asyncNow = true, nc.Async
+				if nc.Async && r.Chance(1, 2) {
+					// off and on again in one go (the flusher has to be restarted)
+					op.Mode, op.Flag, op.Lid = "cycle", r.Bool(), r.Intn(2)
+				}
 				if nc.Async {
 					nc.Threshold = []int{1, 2, 3, 1000}[r.Intn(4)]
 					nc.TimeoutMs = []int64{100, 250, 1000, 60000, 3600000}[r.Intn(5)]
